@@ -126,7 +126,7 @@ def w_db(ctx, rng, i):
 def w_q(ctx, rng, i):
     n = core.long_or(rng, i, int(rng.integers(2, 200)))
     x = np.sort(rng.uniform(-10, 10, n) if i % 3 else rng.normal(0, 3, n))
-    form = ["array", "list", "scalar"][i % 3] if n <= 200000 else "array"
+    form = ["array", "list", "scalar"][(i // 3) % 3] if n <= 200000 else "array"
     ctx.describe(form=form, n=n, lo=float(x[0]), hi=float(x[-1]))
     with core.quiet():
         q = U.Q(x if form != "list" else x.tolist()) if form != "scalar" else np.array([U.Q(float(v)) for v in x])
